@@ -846,6 +846,15 @@ func (rn *runner) bigTxn() {
 		default:
 			rn.commitTxn(0)
 		}
+		if len(rn.open) == 0 && rn.p.Checkpoint && r.Intn(2) == 0 {
+			// a checkpoint right after the big transaction ended (its last records may still sit in the log buffer, one of them
+			// having straddled the end of the previous buffer)
+			rn.rc.Mark("CKPT-BEGIN", 0)
+			rn.db.S.ForceCheckpointingForTestcase()
+			rn.rc.Mark("CKPT-END", 0)
+			rn.h.Stats["checkpoints"]++
+			rn.h.Stats["checkpoints_right_after_a_big_transaction"]++
+		}
 		if len(rn.open) == 0 && r.Intn(2) == 0 {
 			if !rn.auto() {
 				return
